@@ -12,6 +12,13 @@ CHECKS = {
    note="Same trusted base as C07. Liveness is judged on terminating generated programs (per-case timeout = hang)."),
 }
 
+CHECKS["C06"] = dict(level="model_checking", design="5/C06", technique="TLC as a bytecode verifier: Bytecode.tla abstract machine (pc, depth, handler stack) explored over all CFG successors of every function dumped from the real compiler, with an independently written opcode/effect table",
+   text="For every function the real compiler emits for the fixture corpus and for generated try/loop/closure/limit templates, TLC explores all control-flow paths of the abstract stack machine: unique depth and handler height per pc, never below the parameters, never above the reserved capacity, operands in range, jumps on instruction boundaries, PushHandler records the live depth, no handler active at return.",
+   note="Trusts the compile_dump hook (bytes, constants, arity, max_slots as the VM will see them) and the effect table in Bytecode.tla, written from vm/ops.rs. Bounded by the corpus of functions (fixtures + generated templates); not a proof over all programs. Declared locals are approximated by operand checks (local index below the live depth).")
+CHECKS["C12"] = dict(level="model_checking", design="5/C12", technique="TLA+ symbolic stack machine (Peephole.tla Equiv/LinesOK) judged by TLC on (input, output) pairs recorded from the real optimiser for all windows up to a length bound, plus a cursor-machine transcription of peephole_optimize checked step by step",
+   text="Every window of length <= 3 over 33 instruction units (quick; sampled to length 5 in thorough) and every fixture function is run through the real optimiser; TLC checks that input and real output have equal outcome sets (effects, stack, variables, exit) from the entry and from every label, and that lines follow their instructions; the transcription's every single rewrite step preserves equivalence.",
+   note="Trusts the peephole hook (calls the real peephole_optimize), and the symbolic semantics in Peephole.tla. Windows are bounded in length; whole functions are bounded to 220 instructions. Runs of >= 256 Drops are outside the quantifier (the compiler cannot emit them).")
+
 NOT_APPLICABLE = {}
 
 def main():
